@@ -343,19 +343,62 @@ fn live_servers(r: &mut Report, seed: u64, servers: usize) {
     let probe = w.raw(SocketAddrV4::new(Ipv4Addr::new(98, 7, 6, 5), 6881));
     let pid: [u8; 20] = rng.array();
     let case = json!({"class":"live-server","seed":seed.to_string(),"servers":servers});
+    // passers-by that only the signed-peers tables learn (a node with a bootstrap list takes find_node requesters
+    // that support signed peers into that table alone): the two tables of a server differ
+    for j in 0..1 + rng.usize(4) {
+        let s = w.raw(SocketAddrV4::new(Ipv4Addr::new(97, 1, j as u8, 5), 6881));
+        let id: [u8; 20] = rng.array();
+        for server in net.nodes.iter() {
+            w.raw_send(s, &q_find_node(&[5, j as u8], &id, &rng.array(), false, Some(&VERSION_RS6)), server.addr);
+        }
+    }
+    w.run_for(SEC);
+    let signer = ed25519_dalek::SigningKey::from_bytes(&rng.array::<32>());
     for (si, server) in net.nodes.iter().enumerate() {
         if si % 3 != 0 && servers > 10 {
             continue;
         }
+        // the server holds peers and signed peers for one info hash (announced by the probe with tokens it fetched)
+        let held: [u8; 20] = rng.array();
+        let mut token: Vec<u8> = vec![];
+        w.raw_send(probe, &q_get_peers(&[6, 0, 0, si as u8], &pid, &held, true), server.addr);
+        w.run_until(2 * SEC, |w| {
+            while let Some((_, d)) = w.raw_recv(probe) {
+                if let Some(tk) = Krpc::parse(&d.bytes).and_then(|k| k.res_bytes("token").map(|t| t.to_vec())) {
+                    token = tk;
+                    return true;
+                }
+            }
+            false
+        });
+        let ts = w.unix_micros() + 1000;
+        let sg = crate::props::srv::sign_announce(&signer, &held, ts);
+        w.raw_send(probe, &q_announce_signed_peer(&[6, 0, 1, si as u8], &pid, &held, &sg.k, &sg.sig, ts, &token), server.addr);
+        w.raw_send(probe, &q_announce_peer(&[6, 0, 2, si as u8], &pid, &held, 5555, None, &token), server.addr);
+        let mut acks = 0;
+        w.run_until(2 * SEC, |w| {
+            while let Some((_, d)) = w.raw_recv(probe) {
+                if Krpc::parse(&d.bytes).map(|k| k.y == b'r').unwrap_or(false) {
+                    acks += 1;
+                }
+            }
+            acks >= 2
+        });
+        if acks >= 2 {
+            r.count("live_servers_holding_announcements_for_a_probed_info_hash");
+        }
         let Some(snap) = snapshot(&w, server) else { continue };
         let main: Vec<N> = snap.table.nodes.iter().map(|n| (*n.0.as_bytes(), n.1)).collect();
         let signed: Vec<N> = snap.signed_table.nodes.iter().map(|n| (*n.0.as_bytes(), n.1)).collect();
-        for qi in 0..4 {
-            let target: [u8; 20] = if rng.bool() { rng.array() } else { main.first().map(|n| { let mut t = n.0; t[19] ^= 3; t }).unwrap_or([7; 20]) };
+        if main.iter().any(|n| !signed.contains(n)) || signed.iter().any(|n| !main.contains(n)) {
+            r.count("live_servers_whose_two_tables_differ");
+        }
+        for qi in 0..6 {
+            let target: [u8; 20] = if qi >= 4 { held } else if rng.bool() { rng.array() } else { main.first().map(|n| { let mut t = n.0; t[19] ^= 3; t }).unwrap_or([7; 20]) };
             let t = [0, 0, 0x70 + qi as u8, si as u8];
             let (name, q) = match qi {
                 0 => ("find_node", q_find_node(&t, &pid, &target, true, None)),
-                1 => ("get_peers", q_get_peers(&t, &pid, &target, false)),
+                1 | 4 => ("get_peers", q_get_peers(&t, &pid, &target, false)),
                 2 => ("get", q_get(&t, &pid, &target, None)),
                 _ => ("get_signed_peers", q_get_peers(&t, &pid, &target, true)),
             };
@@ -404,6 +447,9 @@ fn live_servers(r: &mut Report, seed: u64, servers: usize) {
                 r.violation(&format!("live/{sig}/{name}"), "the nodes of a reply are not the closest nodes of the server's routing table", case.clone(), json!({"server": server.addr.to_string(), "got": got.iter().map(show).collect::<Vec<_>>(), "want": want.iter().map(show).collect::<Vec<_>>() }));
             }
             r.count("live_replies_checked");
+            if qi >= 4 && (k.res("values").is_some() || k.res("peers").is_some()) {
+                r.count("live_replies_with_stored_peers_checked");
+            }
             if main.len() > 20 || main.iter().any(|n| !secure(n)) && main.iter().any(secure) {
                 r.nontrivial(mix(seed, (si * 4 + qi) as u64));
             }
